@@ -11,13 +11,13 @@ RULE = ("the complete product configuration family (every built-in agent, market
         "all JsonRandom forms, several market groups with randomised endowments, single events, all pairs, all four, and a user event whose every hook call (all nine hook kinds) nudges a fundamental price; plus the "
         "shipped sample configurations shrunk) x seeds x perturbation set {PYTHONHASHSEED 0/1/4242 in separate processes, "
         "global random/numpy.random re-seeded and advanced (two ways), other runs first in the same process, the same run twice, "
-        "the same settings object reused, no logger / the no-op base Logger / MarketStepSaver attached instead of the recording logger (end state compared)}; the digest of the whole observable outcome must be identical across the perturbations "
+        "the same settings object reused, no logger / the no-op base Logger / MarketStepSaver attached instead of the recording logger (end state compared), a logger making read-only queries (incl. the fundamental generator 150 steps ahead where no shock is configured) at every record}; the digest of the whole observable outcome must be identical across the perturbations "
         "of one (configuration, seed), settings must not be mutated, and with every un-owned source replaced by a raising stub "
         "all runs must complete; distinct = distinct (configuration, seed) digests")
 # (name, mode, PYTHONHASHSEED)
 PERTURBATIONS = [("hash0", "plain", "0"), ("hash1", "plain", "1"), ("hash4242", "plain", "4242"), ("global_rng_a", "perturb_a", "7"),
                  ("global_rng_b", "perturb_b", "0"), ("prior_run", "prior_run", "3"), ("twice", "twice", "0"), ("reuse", "reuse", "5"),
-                 ("trap", "trap", "0"), ("logger_none", "logger_none", "0"), ("logger_base", "logger_base", "2"), ("logger_saver", "logger_saver", "0")]
+                 ("trap", "trap", "0"), ("logger_none", "logger_none", "0"), ("logger_base", "logger_base", "2"), ("logger_saver", "logger_saver", "0"), ("logger_peek", "logger_peek", "0")]
 
 
 def child(arg):
@@ -81,6 +81,13 @@ def run(tier, seed, only=None):
             if got[1]:
                 res.add_violation("C07.settings_mutated", "running modified the caller's settings object | %s under %s" % (key, pname),
                                   "C07.settings_mutated:%s" % cfgname, dict(engine="C07", config=cfgname, seed=int(sd), perturbation=pname))
+            if pname == "logger_peek":
+                # the recording logger plus read-only queries at every record: everything must be identical
+                if got[0] != base[0]:
+                    res.add_violation("C07.outcome_differs", "the outcome of a (configuration, seed) depends on read-only queries made while it runs | %s: %s vs %s" % (key, base[0], got[0]),
+                                      "C07.outcome_differs:read_only_queries:%s" % cfgname.split(":")[0],
+                                      dict(engine="C07", config=cfgname, seed=int(sd), perturbation=pname))
+                continue
             if pname.startswith("logger_"):
                 # a different (or no) logger attached: only the end state is comparable
                 if got[2] != base[2]:
